@@ -32,6 +32,7 @@ func RaceExec(s *Script) {
 	for i := 0; i < npool && i < len(poolShapes); i++ {
 		pool = append(pool, prefix+poolShapes[i])
 	}
+	tmpl := NewTemplateCell()
 	for t := range s.Tasks {
 		steps := cloneSteps(s.Tasks[t])
 		wg.Add(1)
@@ -43,7 +44,7 @@ func RaceExec(s *Script) {
 				raceRegTask(pool, steps)
 				return
 			}
-			runTableTask(steps, nil, nil, &taskResult{})
+			runTableTask(steps, nil, nil, &taskResult{}, tmpl)
 		}()
 	}
 	close(start)
